@@ -400,14 +400,17 @@ def eval_monad_shape(a, backend):
     def _normalize_backend_array(x):
         return backend.to_numpy(x) if backend.is_backend_array(x) else x
 
-    def _a(x): # use numpy's natural shape by replacing all strings with arrays
+    def _s(x): # the list of dimensions: a list of members of unequal shape is a vector, atoms have no shape
         x = _normalize_backend_array(x)
-        return bknp.asarray([
-            bknp.empty(len(y)) if isinstance(y, str) else (_a(y) if is_list(y) else _normalize_backend_array(y))
-            for y in x
-        ])
-    a = _normalize_backend_array(a)
-    return 0 if is_atom(a) else bknp.asarray([len(a)]) if isinstance(a, str) else bknp.asarray(_a(a).shape)
+        if not is_iterable(x):
+            return []
+        if isinstance(x, str):
+            return [len(x)]
+        if bknp.isarray(x) and x.dtype != object:
+            return list(x.shape)
+        ms = [_s(y) for y in x]
+        return [len(x)] + (ms[0] if all(m == ms[0] for m in ms) else [])
+    return 0 if is_atom(a) else bknp.asarray(_s(a))
 
 
 def eval_monad_size(a, backend):
